@@ -133,10 +133,22 @@ pub fn run_case(p: &Plan, replay: Option<Trace>, record_trace: bool) -> Output {
         let mut state = ParallelState::new(Arc::clone(&db), true, false);
         // the scheduler loads the fee recipient before workers start; mirror it
         let _ = revm::DatabaseRef::basic_ref(&state, scenario.block.beneficiary);
-        let records = parallel_state_readers(&mut state, hist.clone(), &reads_for_body);
+        // Re-create the history's maps INSIDE the simulated run: their iteration order (which the
+        // committer and `commit` follow) depends on the hasher seed a map got when it was built, and
+        // maps built by the caller thread inherit whatever that thread's seed counter was after any
+        // one-time lazy initialisation (precompile tables, ...) - the first run of a process would then
+        // take another schedule than every later run and than the replay in a fresh process.
+        let hist_in_sim: Vec<revm_state::EvmState> = hist.iter().map(|m| m.iter().map(|(k, v)| (*k, v.clone())).collect()).collect();
+        let records = parallel_state_readers(&mut state, hist_in_sim, &reads_for_body);
         Box::new((records, state)) as Box<dyn std::any::Any + Send>
     });
     let r = run::run_custom(body, &p.sched, replay, record_trace);
+    if let Some(log) = &r.log {
+        for (i, (task, site)) in log.iter().enumerate() {
+            eprintln!("LOG {i} task={task} site={site:08x}");
+        }
+        eprintln!("LOG END");
+    }
     stats.decisions = r.sched.decisions;
     stats.steps = r.steps;
     stats.context_switches = r.sched.context_switches;
